@@ -341,7 +341,7 @@ func addrPath(v ssa.Value) (root ssa.Value, steps []addrStep) {
 // lastField returns the innermost field step of an address (the field being written), or nil.
 func storeField(addr ssa.Value) (*types.Var, ssa.Value) {
 	if fa, ok := addr.(*ssa.FieldAddr); ok {
-		return fieldOfFieldAddr(fa), fa.X
+		return fieldOfFieldAddr(fa), capturedLoad(fa.X)
 	}
 	return nil, nil
 }
